@@ -109,7 +109,7 @@ func main() {
 		run.Meta.Traces++
 		term := fmt.Sprintf("CLog %d %s %s %s", r.s.NLen(), lib.HistCoq(r.hist), lib.OpsCoq(r.tr.Ops), lib.BoolsCoq(r.oks))
 		logIdx[i] = run.Add(term, map[string]interface{}{"kind": "oplog", "script": r.s, "history": lib.HistHuman(r.hist),
-			"observed_ops": lib.OpsHuman(r.tr.Ops), "oks": r.oks, "parser_notes": r.tr.Bad}, len(r.tr.Ops) > 4)
+			"observed_ops": lib.OpsHuman(r.tr.Ops), "oks": r.oks, "parser_notes": r.tr.Bad}, false)
 		run.Hist("oplog")
 		if !r.paired || len(r.tr.Bad) > 0 {
 			run.Hist("oplog_not_paired_no_images")
@@ -136,7 +136,7 @@ func main() {
 		}
 		term := fmt.Sprintf("CImg %d %s %d%%nat %s %s %s %s", r.s.NLen(), lib.HistCoq(r.hist), j.nops, choice,
 			lib.StateCoq(j.out.Loaded), lib.HistCoq(j.out.After), lib.StateCoq(j.out.Reloaded))
-		run.Add(term, map[string]interface{}{"kind": "image", "script": r.s, "history": lib.HistHuman(r.hist),
+		run.Add(term, map[string]interface{}{"kind": "image", "script": r.s.Compact(), "oplog_case": logIdx[j.script],
 			"crash_after_model_ops": j.nops, "crash_after_observed_ops": r.obsIdx[j.nops], "choice": j.k, "image_kind": j.kind,
 			"header_variant": j.variant, "image_len": len(j.img), "file_present": j.present,
 			"loaded": j.out.Loaded, "after": lib.HistHuman(j.out.After), "reloaded": j.out.Reloaded}, j.nt)
